@@ -23,6 +23,75 @@ NOT_UNDER_CONTRACT = ['src.generators.generator.Generator (all gen_* methods)', 
                       'src.translators.*', 'hephaestus.gen_program']
 
 from props import C18_bounded as _b   # noqa: E402
-bounded = _b.bounded
 replay_search = _b.replay_search
-replay = _b.replay
+REPO = os.environ.get('HEPH_REPO', '/repo')
+K_CLASSES, M_PARAMS, GET_TYPES_SEEDS = 8, 5, 12
+
+
+def _get_types_check():
+    """bounded: Program.get_types() -- called at the start of every transformation and by the Java/Groovy translators --
+    instantiates type constructors with types drawn from the program's class declarations; a picked generic class is
+    instantiated recursively and removed from the pool, so the nesting of the produced types is bounded by the number of
+    generic classes (+1), whatever the random choices.  Checked on a program whose classes are all generic."""
+    for m in [k for k in sys.modules if k == 'src' or k.startswith('src.')]:
+        del sys.modules[m]
+    if REPO not in sys.path:
+        sys.path.insert(0, REPO)
+    from src import utils
+    from src.ir import ast, types as tp
+    from src.ir.context import Context
+
+    def build():
+        ctx = Context()
+        for i in range(K_CLASSES):
+            t_params = [tp.TypeParameter('T%d_%d' % (i, j)) for j in range(M_PARAMS)]
+            ctx.add_class(ast.GLOBAL_NAMESPACE, 'Cls%d' % i, ast.ClassDeclaration(
+                'Cls%d' % i, [], ast.ClassDeclaration.REGULAR, fields=[], functions=[], is_final=True,
+                type_parameters=t_params))
+        return ast.Program(ctx, 'java')
+
+    def nesting(t):
+        t_args = getattr(t, 'type_args', None)
+        if t is None or not t_args:
+            b = getattr(t, 'bound', None)
+            return nesting(b) if b is not None and t.is_wildcard() else 0
+        return 1 + max(nesting(a) for a in t_args)
+
+    out, n = [], 0
+    old_limit = sys.getrecursionlimit()
+    sys.setrecursionlimit(1500)
+    try:
+        for seed in range(GET_TYPES_SEEDS):
+            utils.random.r.seed(seed)
+            n += 1
+            try:
+                depth = max([nesting(t) for t in build().get_types() if isinstance(t, tp.Type)] or [0])
+            except Exception as e:          # RecursionError included
+                out.append(dict(check='bounded[get-types:exception:%s]' % type(e).__name__, function='src.ir.ast.Program.get_types',
+                                seed=seed, actual=str(e)[:200]))
+                break
+            if depth > K_CLASSES + 1:
+                out.append(dict(check='bounded[get-types:type-nesting]', function='src.ir.ast.Program.get_types', seed=seed,
+                                actual='type nesting %d' % depth, expected='<= %d (generic classes + 1)' % (K_CLASSES + 1)))
+                break
+    finally:
+        sys.setrecursionlimit(old_limit)
+    return n, out
+
+
+def bounded(tier, seed, stop_first=False):
+    r = _b.bounded(tier, seed, stop_first)
+    n, extra = _get_types_check()
+    r['evaluations'] = r.get('evaluations', 0) + n
+    r.setdefault('violations', []).extend(extra)
+    return r
+
+
+def replay(payload):
+    fi = payload.get('failing_input') or {}
+    if str(fi.get('check', '')).startswith('bounded[get-types'):
+        n, out = _get_types_check()
+        for v in out:
+            print('%s: seed %s: %s' % (v['check'], v.get('seed'), v.get('actual')))
+        return not out
+    return _b.replay(payload)
